@@ -510,9 +510,12 @@ Definition voronoi (fx : bool) (nrows ncols : Z) (xll yll csz : T) (ncells : Z) 
   if fx && (npoints <? 1) then Ret 1 weights
   else if fx && ((nrows <? 1) || (ncols <? 1)) then Ret 1 weights
   else
+  let! ntot := chk64 (nrows * ncols) in
   do! w := forZ 0 npoints (fun j w => let! w := wr "weights" w j (n0 N) in Next w) weights in
   do! w := forZ 0 ncells (fun i w =>
       let! idxcell := rd "idxcells_area" 0 area i in
+      if fx && ((idxcell <? 0) || (ntot <=? idxcell)) then Ret 1 w
+      else
       let! _ := (if fx then Ok (n0 N) else rd "xypoints" (n0 N) xyp (2 * i)) in
       let! _ := (if fx then Ok (n0 N) else rd "xypoints" (n0 N) xyp (2 * i + 1)) in
       let! (nx, ny) := getnxy ncols idxcell in
